@@ -168,16 +168,37 @@ def offM : Machine Unit α α where
 
 /-! ### chains: one gate per stage -/
 
-/-- a machine with its state type packed -/
+/-- a machine with its state type packed, plus how to read the abstract counters it holds -/
 structure AnyM (α : Type) : Type 1 where
   σ : Type
   m : Machine σ α α
-  /-- the abstract counter this stage holds (0 for operators that are not instrumentation) -/
-  tally : σ → Nat := fun _ => 0
+  /-- the abstract counters this stage holds (`[]` for operators that are not instrumentation) -/
+  tally : σ → List Nat := fun _ => []
+  /-- (ghost, specification) what those counters have to be, as a function of the notifications
+      the stage's gate has let through; `[]` for operators that are not instrumentation -/
+  spec : List (Notif α) → List Nat := fun _ => []
 
+/-- a user operator -/
 def AnyM.of {σ : Type} (m : Machine σ α α) : AnyM α := { σ := σ, m := m }
-/-- a stand-alone counting operator: its state is its counter -/
-def AnyM.counting (m : Machine Nat α α) : AnyM α := { σ := Nat, m := m, tally := id }
+
+/-- `observeBeforePipe`: [notifications-in, lag observations] -/
+def AnyM.before : AnyM α :=
+  { σ := Nat × Nat, m := beforeM, tally := fun s => [s.1, s.2], spec := fun l => [countNext l, countNonNilNext l] }
+/-- `observeOperatorProcessingTime`: [observations] -/
+def AnyM.proc : AnyM α :=
+  { σ := Nat, m := procM, tally := fun s => [s], spec := fun l => [countStampedNext l] }
+/-- `observeAfterPipe`: [notifications-out] (the subscription counter is `afterSubs` below) -/
+def AnyM.after : AnyM α :=
+  { σ := Nat × Nat, m := afterM, tally := fun s => [s.2], spec := fun l => [countNext l] }
+def AnyM.cntNext : AnyM α := { σ := Nat, m := cntNextM, tally := fun s => [s], spec := fun l => [countNext l] }
+def AnyM.cntError : AnyM α := { σ := Nat, m := cntErrorM, tally := fun s => [s], spec := fun l => [countError l] }
+def AnyM.cntComplete : AnyM α := { σ := Nat, m := cntCompleteM, tally := fun s => [s], spec := fun l => [countComplete l] }
+def AnyM.lag : AnyM α := { σ := Nat, m := lagM, tally := fun s => [s], spec := fun l => [countNext l] }
+/-- `IncCounterOnSubscription`: the counter is not a function of the notifications (it counts
+    runs of the subscribe function), so no `spec`; see `RoProofs.PromCounters` -/
+def AnyM.cntSub : AnyM α := { σ := Nat, m := cntSubM, tally := fun s => [s] }
+/-- a stand-alone operator with the licence off -/
+def AnyM.off : AnyM α := { σ := Unit, m := offM }
 
 /-- dynamic part of one stage: the machine state, the gate of the subscriber in front of it, and
     (ghost) the notifications that gate has let through -/
@@ -297,11 +318,11 @@ def run (hot : Bool) (sub : Ctx) (ms : List (AnyM α)) (raw : List (Notif α)) (
 
 /-- `op1, proc0, op2, proc1, …, opN, proc(N-1), after` (pipe.go:80-86 inside pipe.go:48-57) -/
 def tailI : List (AnyM α) → List (AnyM α)
-  | [] => [AnyM.of afterM]
-  | m :: ms => m :: AnyM.of procM :: tailI ms
+  | [] => [AnyM.after]
+  | m :: ms => m :: AnyM.proc :: tailI ms
 
 /-- the instrumented composition (licence on): `before, op1, proc0, …, opN, proc(N-1), after` -/
-def instrument (ms : List (AnyM α)) : List (AnyM α) := AnyM.of beforeM :: tailI ms
+def instrument (ms : List (AnyM α)) : List (AnyM α) := AnyM.before :: tailI ms
 
 /-- `checkLicenseAndPipe` (license.go:38-47): the composition that is subscribed -/
 def pipe (licence : Bool) (ms : List (AnyM α)) : List (AnyM α) := if licence then instrument ms else ms
@@ -328,15 +349,15 @@ def counters (ms : List (AnyM α)) (c : Cfg (instrument ms)) : Counters :=
   let t := tailCounters ms c.2
   { subs := t.2.1, inN := (c.1.st : Nat × Nat).1, outN := t.2.2, lag := (c.1.st : Nat × Nat).2, proc := t.1 }
 
-/-- the counters held by the stages of a plain chain -/
+/-- the counters held by the stages of a plain chain, in chain order -/
 def tallies : (ms : List (AnyM α)) → Cfg ms → List Nat
   | [], _ => []
-  | a :: ms, c => a.tally c.1.st :: tallies ms c.2
+  | a :: ms, c => a.tally c.1.st ++ tallies ms c.2
 
 /-- the counters held by the user's stages inside the instrumented composition -/
 def tailTallies : (ms : List (AnyM α)) → Cfg (tailI ms) → List Nat
   | [], _ => []
-  | a :: ms, c => a.tally c.1.st :: tailTallies ms c.2.2
+  | a :: ms, c => a.tally c.1.st ++ tailTallies ms c.2.2
 
 /-- what each processing-time observer's gate let through, by operator index -/
 def tailSeen : (ms : List (AnyM α)) → Cfg (tailI ms) → List (List (Notif α))
